@@ -253,3 +253,69 @@ Example C12_sorter_chunk_storage_example :
   faulty_sorter_run compress_none decompress_none wc (fun n => if n =? 1 then Some (100000, false) else None) (fun _ _ => false) (fun _ _ => Some 1000) c mf_concat ins
     = Done [([1], [2; 5]); ([2], [4]); ([3], [1; 3])].
 Proof. cbv zeta. split; [vm_compute; reflexivity|]. split; vm_compute; reflexivity. Qed.
+
+(* ================= iterators over a failing source =================
+   [calls next n it]: n successive calls of an iterator's next.  If without the fault they return (it', rs),
+   then over the loader that fails its j-th block load they return exactly the same when load j is not
+   among the loads they perform, and exactly the injected error when it is.  Applied to n and n + 1: the
+   call of next during which load j happens is the one that returns the error, every earlier call returned
+   what it returns without the fault - for the range and prefix iterators in both directions, all bounds. *)
+From Grenad.model Require Import Spec Iter.
+From Grenad.proofs Require Import IterFault.
+
+Theorem C12_range_iterator_fault : forall ld j root levels lo hi n it it' rs,
+  calls (range_next (cstep ld root levels) lo hi) n it = Done (it', rs) ->
+  cs_loads (it_st it) <= cs_loads (it_st it') /\
+  (j < cs_loads (it_st it) \/ cs_loads (it_st it') <= j ->
+   calls (range_next (cstep (faulty_load ld j) root levels) lo hi) n it = Done (it', rs)) /\
+  (cs_loads (it_st it) <= j < cs_loads (it_st it') ->
+   calls (range_next (cstep (faulty_load ld j) root levels) lo hi) n it = Fail (EIo IO_INJECTED)).
+Proof. exact range_iterator_fault. Qed.
+Print Assumptions C12_range_iterator_fault.
+
+Theorem C12_rev_range_iterator_fault : forall ld j root levels lo hi n it it' rs,
+  calls (rev_range_next (cstep ld root levels) lo hi) n it = Done (it', rs) ->
+  cs_loads (it_st it) <= cs_loads (it_st it') /\
+  (j < cs_loads (it_st it) \/ cs_loads (it_st it') <= j ->
+   calls (rev_range_next (cstep (faulty_load ld j) root levels) lo hi) n it = Done (it', rs)) /\
+  (cs_loads (it_st it) <= j < cs_loads (it_st it') ->
+   calls (rev_range_next (cstep (faulty_load ld j) root levels) lo hi) n it = Fail (EIo IO_INJECTED)).
+Proof. exact rev_range_iterator_fault. Qed.
+Print Assumptions C12_rev_range_iterator_fault.
+
+Theorem C12_prefix_iterator_fault : forall ld j root levels p n it it' rs,
+  calls (prefix_next (cstep ld root levels) p) n it = Done (it', rs) ->
+  cs_loads (it_st it) <= cs_loads (it_st it') /\
+  (j < cs_loads (it_st it) \/ cs_loads (it_st it') <= j ->
+   calls (prefix_next (cstep (faulty_load ld j) root levels) p) n it = Done (it', rs)) /\
+  (cs_loads (it_st it) <= j < cs_loads (it_st it') ->
+   calls (prefix_next (cstep (faulty_load ld j) root levels) p) n it = Fail (EIo IO_INJECTED)).
+Proof. exact prefix_iterator_fault. Qed.
+Print Assumptions C12_prefix_iterator_fault.
+
+Theorem C12_rev_prefix_iterator_fault : forall ld j root levels p n it it' rs,
+  calls (rev_prefix_next (cstep ld root levels) p) n it = Done (it', rs) ->
+  cs_loads (it_st it) <= cs_loads (it_st it') /\
+  (j < cs_loads (it_st it) \/ cs_loads (it_st it') <= j ->
+   calls (rev_prefix_next (cstep (faulty_load ld j) root levels) p) n it = Done (it', rs)) /\
+  (cs_loads (it_st it) <= j < cs_loads (it_st it') ->
+   calls (rev_prefix_next (cstep (faulty_load ld j) root levels) p) n it = Fail (EIo IO_INJECTED)).
+Proof. exact rev_prefix_iterator_fault. Qed.
+Print Assumptions C12_rev_prefix_iterator_fault.
+
+(* non-vacuity: a 2-level file with one entry per data block; the forward range iterator performs 3 loads for
+   its first entry and one more per further entry; with load number 3 failing, the first call is unaffected
+   and the second returns the injected error *)
+Example C12_iterator_fault_example :
+  let es := [([1], [1;1;1;1;1;1;1;1]); ([2], [2;2;2;2;2;2;2;2]); ([3], [3;3;3;3;3;3;3;3]); ([4], [4])] in
+  match w_run compress_none (mk_wcfg 0 0 16 1 1) es with
+  | WFile f _ m =>
+    let ld := load_block decompress_none f (m_codec m) in
+    (exists it', calls (range_next (cstep ld (m_root m) (m_levels m)) Unbounded Unbounded) 5 iter_new = Done (it', map Some es ++ [None]) /\
+                 cs_loads (it_st it') = 6) /\
+    (exists it', calls (range_next (cstep (faulty_load ld 3) (m_root m) (m_levels m)) Unbounded Unbounded) 1 iter_new
+                 = Done (it', [Some ([1], [1;1;1;1;1;1;1;1])]) /\ cs_loads (it_st it') = 3) /\
+    calls (range_next (cstep (faulty_load ld 3) (m_root m) (m_levels m)) Unbounded Unbounded) 2 iter_new = Fail (EIo IO_INJECTED)
+  | _ => False
+  end.
+Proof. vm_compute. split; [eexists; split; reflexivity|]. split; [eexists; split; reflexivity|reflexivity]. Qed.
